@@ -377,6 +377,19 @@ def cmp(op, l, r):
         op, l, r = "<", r, l
     elif op == ">=":
         op, l, r = "<=", r, l
+    if op in ("<", "<="):
+        # min(a, b) <= k  is  a <= k or b <= k;  k < min(a, b)  is  k < a and k < b  (max dually) - two-argument builtins
+        def two(z, name):
+            return z.op == "call" and z.a[0].op == "builtin" and z.a[0].a[0] == name and len(z.a[1]) == 2 and not z.a[2] and not any(y.op == "star" for y in z.a[1])
+
+        if two(l, "min") and not two(r, "min") and not two(r, "max"):
+            return mk("bool", "or", cmp(op, l.a[1][0], r), cmp(op, l.a[1][1], r))
+        if two(l, "max") and not two(r, "min") and not two(r, "max"):
+            return mk("bool", "and", cmp(op, l.a[1][0], r), cmp(op, l.a[1][1], r))
+        if two(r, "min") and not two(l, "min") and not two(l, "max"):
+            return mk("bool", "and", cmp(op, l, r.a[1][0]), cmp(op, l, r.a[1][1]))
+        if two(r, "max") and not two(l, "min") and not two(l, "max"):
+            return mk("bool", "or", cmp(op, l, r.a[1][0]), cmp(op, l, r.a[1][1]))
     if op in ("in", "notin") and r.op == "dict" and r.a and all(kv.op == "tuple" and len(kv.a) == 2 and kv.a[0].op != "star" for kv in r.a):
         r = tup([kv.a[0] for kv in r.a])  # membership in a dict display is membership in its keys
     if op in ("in", "notin") and l.op != "const" and r.op in ("tuple", "list", "set") and 2 <= len(r.a) <= 4 and all(z.op == "const" and isinstance(z.a[0], (int, float)) and not isinstance(z.a[0], bool) for z in r.a):
